@@ -230,7 +230,7 @@ std::vector<std::string> Cells(int tier) {
 bool CellBounds(const vx::Cell& cell, int tier, vx::Bounds& b) {
   const bool timed = !cell.Is("wait", "Wait");
   const bool one = cell.Is("form", "one");
-  b.P = one ? (tier == 0 ? 3 : 99) : (tier == 0 ? 2 : 3);
+  b.P = 99;  // calibrated: every interleaving of the largest cell is ~50 k schedules
   b.S = 1;
   b.T = timed ? (cell.Is("twice", "1") ? 2 : 1) : 0;
   return true;
